@@ -1,3 +1,4 @@
+use rusty_common::{AtPos, Positioned};
 use rusty_pc::and::KeepRightCombiner;
 use rusty_pc::*;
 
@@ -66,8 +67,12 @@ fn name_and_opt_eq_sign()
 fn expr_to_bare_name_args(name_expr: Expression) -> Option<(BareName, Option<Expressions>)> {
     match name_expr {
         // A(1,2) or A$(1,2)
-        Expression::FunctionCall(name, args) => {
-            // this one is easy, convert it to a sub
+        Expression::FunctionCall(name, mut args) => {
+            // `Inc(X)` means the same as `Inc (X)`: one argument in parenthesis, passed by value
+            if args.len() == 1 {
+                let Positioned { element, pos } = args.remove(0);
+                args.push(Expression::Parenthesis(Box::new(element.at_pos(pos))).at_pos(pos));
+            }
             Some((name.demand_bare(), Some(args)))
         }
         // A or A$ (might have arguments after space)
